@@ -36,6 +36,40 @@ def w_setup(exe, values):
     return {PROP: part}
 
 
+def w_setup_sweep(exe, lo, hi, step, add):
+    """eav_setup over a whole range of rfc values inside the driver: exactly the defined modes are accepted; every other value is
+    refused with EEAV_INVALID_RFC, recorded as the error code, with that code's message."""
+    import collections
+    part = {"counters": collections.Counter(), "viol": [], "samples": [], "distinct": 0, "sets": {}}
+    mdl = _model.Model()
+    wit = {"rfc_range": [lo + add, hi + add], "step": step}
+    try:
+        rec = driver.run_lines(exe, ["S %d %d %d %d" % (lo, hi, step, add)])[0]
+    except driver.DriverCrash as c:
+        part["viol"].append(("setup/crash/%s" % c.signature(), wit, {"stderr": c.stderr[-1200:]}))
+        return {PROP: part}
+    defined = set(mdl.rfc.values())
+    inv = mdl.E("INVALID_RFC")
+    want = [k for k, n in _model.PINNED_MESSAGES.items() if n == "EEAV_INVALID_RFC"][0]
+    expect_ok = sorted(v for v in defined if lo + add <= v <= hi + add and (v - lo - add) % step == 0)
+    part["counters"]["setup.calls"] += rec["n"]
+    part["counters"]["setup.sweep-calls"] += rec["n"]
+    for v in rec["ok"]:
+        if v not in defined:
+            part["viol"].append(("setup/undefined-mode-return", {"rfc": v}, {"ret": 0, "expected": inv}))
+    for v in expect_ok:
+        if v not in rec["ok"]:
+            part["viol"].append(("setup/defined-mode-refused", {"rfc": v}, {}))
+    for sr, ec, msg, cnt, first in rec["rej"]:
+        part["counters"]["setup.undefined"] += cnt
+        if sr != inv:
+            part["viol"].append(("setup/undefined-mode-return", {"rfc": first}, {"ret": sr, "expected": inv, "values": cnt}))
+        if ec != inv or not msg or (msg in _model.PINNED_MESSAGES and msg != want):
+            part["viol"].append(("setup/errstr-after-invalid-rfc", {"rfc": first}, {"ret": sr, "errcode": ec, "message": msg, "values": cnt}))
+    part["distinct"] = rec["n"]
+    return {PROP: part}
+
+
 def w_class_messages(pexe):
     """Every TLD class code (also TEST / RETIRED, which no shipped table row produces) through a caller-installed callback with
     allow_tld = 0: the error code must be the class's own and the message must be the one documented for that code."""
@@ -76,6 +110,15 @@ def main(tier, seed):
 
     def extra_jobs(cx, exe, opts, extra, name):
         jobs = [(w_setup, (exe, vals)), (w_class_messages, (cx.exe("asan-policy", driver=("drv/policy.c",)),))]
+        # every value in a wide window around zero (RFC numbers, years, port numbers ... any "meaningful" integer), and the defined
+        # modes with every pattern in the upper 16 bits (a narrowing conversion of the field)
+        w = 1 << (20 if tier == "quick" else 24)
+        for lo in range(-w, w, w // 4):
+            jobs.append((w_setup_sweep, (exe, lo, lo + w // 4 - 1, 1, 0)))
+        for m in range(0, 8):
+            jobs.append((w_setup_sweep, (exe, -(1 << 31), (1 << 31) - 65536, 65536, m)))
+        for sh in (8, 12, 20, 24):
+            jobs.append((w_setup_sweep, (exe, -(1 << 31), (1 << 31) - (1 << sh) - 8, 1 << sh, 1)))
         # a second pass with allow_tld = 0 and allow_tld = only-special: every classified address is then rejected and must carry
         # the code/message of its own class
         mdl2 = _model.Model()
